@@ -173,6 +173,35 @@ def cases(rng, tier, stats):
         exp = f"{want}\n{want}\nসত্য\nসত্য\n"
         out.append(C.Case("print-roundtrip", [run(prog)], lambda m, i: C.compare_run(m, i, line=True), print_oracle,
                           info={"src": prog, "want": exp, "value": repr(x)}))
+    # many numbers printed by ONE run (printing has no memory): sequences of 4..10 numbers drawn from pools that collide under any
+    # lossy key — whole numbers at and beyond 2^53 and 2^63 of both signs, minus zero before and after zero, numbers equal up to
+    # their fraction, factorials — each printed alone, through `_স্ট্রিং`, and inside one list; the expected text is per number
+    pools = [[2.0 ** 63, 2.0 ** 63 + 2048, 2.0 ** 64, 1e19, 1e20, 5e20, 51090942171709440000.0, 1.1240007277776077e21, 2.585201673888498e22],
+             [-(2.0 ** 63), -(2.0 ** 63) - 2048, -1e19, -7e20, -8e20, -(2.0 ** 70)],
+             [-0.0, 0.0, -0.0, 0.0, 1.0, -1.0],
+             [0.0, -0.0, 0.5, -0.5, 0.25],
+             [2.0 ** 53, 2.0 ** 53 + 2, 2.0 ** 53 - 1, 9007199254740993.0, 1e16, 12345678901234567.0],
+             [3.0, 3.5, 3.25, 3.0, 4.0, 3.75], [1e21, 1e22, 1e21, 1e300, 1e301, 1e300], [255.0, 256.0, 65535.0, 65536.0, 4294967295.0, 4294967296.0, 4294967297.0]]
+    nm = 0
+    for pool in pools:
+        for rep in range(6 if tier != "thorough" else 40):
+            k = 4 + (rep * 3 + len(pool)) % 7
+            seq = [pool[(rep * 5 + j * (rep + 1)) % len(pool)] for j in range(k)]
+            def lit(x):
+                t = G.bn_digits(plain(abs(x)))
+                return ("(-" + t + ")") if (bits(x) >> 63) else t
+            prog = ""
+            exp = ""
+            for x in seq:
+                w = G.bn_digits(plain(x))
+                prog += f"দেখাও {lit(x)};\n_দেখাও _স্ট্রিং({lit(x)});\nদেখাও \"\";\n"
+                exp += f"{w}\n{w}\n"
+            prog += "দেখাও [" + ", ".join(lit(x) for x in seq) + "];\n"
+            exp += "[" + ", ".join(G.bn_digits(plain(x)) for x in seq) + "]\n"
+            out.append(C.Case("many-numbers-one-run", [run(prog)], lambda m, i: C.compare_run(m, i, line=True), print_oracle,
+                              info={"src": prog[:300], "want": exp, "values": [repr(x) for x in seq]}))
+            nm += 1
+    stats["many_numbers_one_run"] = nm
     for bad in ["abc", "১২ক", "", "১.২.৩", "nan", "inf", "-inf", "infinity", "১e৯৯৯", "--১", "১ ২"]:
         prog = f'দেখাও "আগে";\nদেখাও _সংখ্যা("{bad}");\nদেখাও "পরে";\n'
         def orc(case, impl, model):
